@@ -168,6 +168,10 @@ def build_race(run):
     return out
 
 
+class CrashSeen(Exception):
+    """a driver process died inside the code under test; the violation is recorded already"""
+
+
 def drive(run, binary, args, tag, extra_env=None, timeout=900):
     """One driver process with a work directory of its own (several run in parallel)."""
     env = dict(vp.GOENV, VERIF_SEED=str(run.seed), VERIF_TIER=run.tier, VERIF_WORK=run.sub("go_" + tag))
@@ -177,6 +181,14 @@ def drive(run, binary, args, tag, extra_env=None, timeout=900):
                            stderr=subprocess.PIPE, text=True, timeout=timeout)
     except subprocess.TimeoutExpired:
         raise vp.Undecided("driver timed out: %s" % " ".join(map(str, args)))
+    crash = vp.real_code_panic(p.stderr) if p.returncode != 0 else None
+    if crash:
+        # the process of the node died inside the repository's own code (a panic nobody recovered, concurrent map
+        # access, a mutex unlocked twice): no action of the specification explains a request that ends like that
+        run.violation("the real code crashed the process during concurrent requests: %s in %s" % (crash["msg"], crash["func"]),
+                      {"property": PID, "mode": "crash", "driver_args": [str(a) for a in args], "msg": crash["msg"],
+                       "func": crash["func"], "stack": crash["stack"]})
+        raise CrashSeen()
     if p.returncode != 0:
         vp.log(p.stdout[-2000:])
         vp.log(p.stderr[-6000:])
@@ -498,6 +510,13 @@ def race_reports(run, stderr_dir):
 
 # ------------------------------------------------------------------------------------------------ the check
 def check(run):
+    try:
+        check1(run)
+    except CrashSeen:
+        run.finish()
+
+
+def check1(run):
     thorough = run.tier == "thorough"
     kf_known = KF in known_keys()
     run.build_harness("c12")
@@ -717,6 +736,16 @@ def selftest(run, kf_known):
 def replay_file(run, consts, kf_known):
     """--replay FILE: re-execute the recorded schedule on the current tree and judge it again."""
     rp = json.load(open(run.replay))
+    if rp.get("mode") == "crash":
+        # a crash of the free-running driver: the same request mix again (the schedule itself is not recorded)
+        d = gen_bfs(run, "Gen_SpinLock_cat.cfg", consts, "catr")
+        args = list(rp["driver_args"])
+        args[args.index("-catalog") + 1] = os.path.join(d, "catalog.json")
+        args[args.index("-out") + 1] = os.path.join(run.work, "rp_free.ndjson")
+        for i in range(3):
+            drive(run, run.vh, args, "rpfree%d" % i, timeout=1800)
+        run.cov["replayed_file"] = os.path.basename(run.replay)
+        run.finish()
     if rp.get("mode") == "unit":
         # a call sequence on the lock table
         d = run.sub("rpunit")
